@@ -329,9 +329,18 @@ def add_below_a_file():
                  Edit("rmtree", b"e"), W(b"e", b"file too"), c_add([b"e/sub"]), c_ls_files(False), c_status()]
 
 
+def tab_in_identity():
+    # a configured name with a tab inside: Goit reads values back without tabs, so the journal line (whose
+    # fields are separated from the message by a tab) stays well formed
+    return [c_init(), c_config(b"user.name", b"Ada\tLovelace"), c_config(b"user.email", b"ada@b.cc"), W(b"f", b"1"), c_add([b"f"]),
+            c_commit(b"one"), c_reflog(), c_log(1), W(b"f", b"2"), c_add([b"f"]), c_commit(b"two"), c_switch_create(b"dev"), c_reflog(),
+            c_reset("soft", b"HEAD@{2}"), c_reflog(), c_log(2), c_config(b"core.x", b"a\tb\tc"), c_status()]
+
+
 ORACLE_ONLY = {"very-long-lines", "newline-names", "invalid-ignore-lines", "quoting-ignore-lines"}
 
 DIRECTED = [
+    (("C11", "C20", "C12"), "tab-in-identity", tab_in_identity, "a configured name containing a tab: read back without it, so journal lines stay well formed and reflog/reset keep working"),
     (("C04", "C06"), "add-below-a-file", add_below_a_file, "a tracked path below a directory that became a regular file (ENOTDIR) is a path that no longer exists: add unstages it"),
     (("C17", "C13", "C04"), "blank-ignore-lines", blank_ignore_lines, "F55: empty lines in .goitignore (in the middle, at the end, CRLF files) exclude nothing"),
     (("C04", "C09", "C18"), "unclean-file-arguments", unclean_file_arguments, "F53: a trailing slash on an existing file, a/../a/b spellings, and the empty argument for add, rm, restore"),
